@@ -269,7 +269,7 @@ def run(ctx):
     sel = bics[::step]
     chunk = max(1, len(sel) // 32)
     ctx.pmap(shard_bic, [(sel[i:i + chunk], ctx.seed, ctx.tier) for i in range(0, len(sel), chunk)])
-    ctx.hyp_explore(strategy(), hyp_body, ctx.pick(3000, 100000), name="C10-hyp")
+    ctx.hyp_parallel(strategy, hyp_body, ctx.pick(8000, 300000), name="C10-hyp")
     ctx.require_classes("iban-ws-extreme", "iban-token-base", "generate-variant", "bic-ws-extreme", "bic-token-base",
                         "iban-ws-insert", "iban-valid-variant", "iban-invalid-variant", "bic-ws-insert", "bic-valid-variant",
                         "bic-invalid-variant", "hyp-iban", "hyp-bic")
